@@ -275,6 +275,14 @@ class Fn:
                 return p, f"(len {c})", "N"
             if f.id in {"tuple", "hash"}:
                 return self.tx(args[0], env)
+            if f.id == "bool" and len(args) == 1 and not kws:
+                # bool(l) of a list is len(l) > 0 (rendered like that spelling); bool(b) of a bool is b
+                p, c, t = self.tx(args[0], env)
+                if t == "B":
+                    return p, c, "B"
+                if t in {"LV", "LT", "LN", "LA", "LST"}:
+                    return p, f"(Nat.ltb 0 (len {c}))", "B"
+                fail(e, f"bool() of a value of type {t}")
             if f.id == "isinstance":
                 fail(e, "isinstance outside the dropped guard idiom")
             fail(e, f"call to {f.id}")
